@@ -54,6 +54,36 @@ fn show_page(body: &[u8], ids: &[u32]) -> String {
         match c { Some(c) => v.push(format!("r{k}={c}")), None => v.push(format!("r{k}=missing")) }
     }
     if extra > 0 { v.push(format!("unexpected-rows={extra}")) }
+    // the nine judged columns, each read DOWN THE PAGE (a router without TLVs shows `-`: it sorts as "-" / 0)
+    let mut cols: Vec<Vec<String>> = vec![vec![]; 9];
+    for row in page.split("<tr>").skip(1) {
+        if row.contains("<th>") { continue }
+        let cs = cells(row);
+        if cs.len() != 7 { continue }
+        let dash = cs[2].trim() == "-";
+        let num = |s: &str| -> String { let d: String = s.chars().filter(|c| c.is_ascii_digit()).collect(); if d.is_empty() { "?".into() } else { d.parse::<u64>().map(|n| n.to_string()).unwrap_or("?".into()) } };
+        if dash {
+            cols[0].push("-".into()); cols[1].push("-".into());
+            for c in cols.iter_mut().skip(2) { c.push("0".into()) }
+            continue;
+        }
+        cols[0].push(link_text(&cs[2]).trim().to_string());
+        cols[1].push(cs[3].trim().to_string());
+        // "3/2 (66%)/1 (50%)"
+        let peers: Vec<&str> = cs[5].split('/').collect();
+        let count = |s: &str| -> (String, String) { match s.split_once('(') { Some((a, b)) => (num(a), num(b)), None => (num(s), "?".into()) } };
+        if peers.len() == 3 {
+            cols[2].push(num(peers[0]));
+            let (e, epc) = count(peers[1]); let (d, dpc) = count(peers[2]);
+            cols[3].push(e); cols[4].push(d); cols[5].push(epc); cols[6].push(dpc);
+        } else { for c in cols.iter_mut().skip(2).take(5) { c.push("?".into()) } }
+        // "0 (1/2)"
+        match cs[6].split_once('(').and_then(|(_, r)| r.split_once('/')) {
+            Some((sf, hd)) => { cols[7].push(num(sf)); cols[8].push(num(hd)) }
+            None => { cols[7].push("?".into()); cols[8].push("?".into()) }
+        }
+    }
+    for (j, c) in cols.iter().enumerate() { v.push(format!("c{j}={}", if c.is_empty() { "~".to_string() } else { c.join(",") })) }
     v.join(" ")
 }
 
@@ -69,10 +99,14 @@ pub fn run_case(line: &str) -> String {
             "N" | "R" => {
                 let n = ids.len() as u8;
                 let id = f.add_router(Some(IpAddr::V4(Ipv4Addr::new(10, 0, 0, n + 1))));
-                if op[0] == "R" && !rt.block_on(f.feed(id, render("I"))) { out.push("FEED-FAILED".into()) }
+                let (nm, ds) = if op.len() >= 3 { (op[1], op[2]) } else { ("r", "d") };
+                if op[0] == "R" && !rt.block_on(f.feed(id, rotonda::bgp::encode::mk_initiation_msg(nm, ds))) { out.push("FEED-FAILED".into()) }
                 ids.push(id);
             }
-            "I" => if let Some(id) = k(1) { if !rt.block_on(f.feed(id, render("I"))) { out.push("FEED-FAILED".into()) } },
+            "I" => if let Some(id) = k(1) {
+                let (nm, ds) = if op.len() >= 4 { (op[2], op[3]) } else { ("r", "d") };
+                if !rt.block_on(f.feed(id, rotonda::bgp::encode::mk_initiation_msg(nm, ds))) { out.push("FEED-FAILED".into()) }
+            },
             "U" => if let Some(id) = k(1) { if !rt.block_on(f.feed(id, render(&format!("U.{}.{}", op[2], op[3])))) { out.push("FEED-FAILED".into()) } },
             "A" => if let Some(id) = k(1) { if !rt.block_on(f.feed(id, render(&format!("R.{}.0.1.1+2.0.-", op[2])))) { out.push("FEED-FAILED".into()) } },
             "E" => if let Some(id) = k(1) { if !rt.block_on(f.feed(id, render(&format!("E.{}.0", op[2])))) { out.push("FEED-FAILED".into()) } },
